@@ -61,7 +61,7 @@ pub fn gate_spec() -> (RunSpec, Vec<Budget>) {
             let payload = PAYLOADS[(kind.idx() + i) % PAYLOADS.len()];
             work.push(inst(kind, dim, field, complete(), FaultPlan::Permanent(1), Drive::CollectVec, payload));
             work.push(inst(kind, dim, field, complete(), FaultPlan::Transient(3), Drive::ByRefCollect, payload));
-            work.push(inst(kind, dim, field, complete(), FaultPlan::Burst(2, 3), Drive::Fold, payload));
+            work.push(inst(kind, dim, field, complete(), FaultPlan::Burst(2, 3), Drive::Walk(0), payload));
             work.push(inst(kind, dim, field, vec![BOp::Start(1.0), BOp::End(1.0)], FaultPlan::None, Drive::Poll, payload));
             work.push(inst(kind, dim, field, vec![BOp::Tol(0.0)], FaultPlan::None, Drive::Poll, payload));
             // the wrong constructor for this dimension kind
